@@ -21,29 +21,29 @@ Variable pf : list Z -> Z.
 Variable pip : list Z -> list Z.
 Variable pb : list Z -> bool.
 
-(* the switch :70-136 for one TLV of type t (not 255) with value v; tlv = the whole item (type, length, value) *)
+(* the switch :76-135 for one TLV of type t (not 255) with value v; tlv = the whole item (type, length, value) *)
 Definition md_set (l : mdp) (t : Z) (v tlv : list Z) : mdp :=
   let '(mkMd c p pre di ni lon lat t6 t7 ip b13 ty len) := l in
-  if t =? 2 then mkMd (c ++ tlv) p pre v ni lon lat t6 t7 ip b13 ty len                (* :71-77 appends the item to Contents *)
-  else if t =? 3 then mkMd c p pre di v lon lat t6 t7 ip b13 ty len                    (* :78-83 *)
-  else if t =? 4 then mkMd c p pre di ni (pf v) lat t6 t7 ip b13 ty len                (* :84-89 *)
-  else if t =? 5 then mkMd c p pre di ni lon (pf v) t6 t7 ip b13 ty len                (* :90-95 *)
-  else if t =? 6 then mkMd c p pre di ni lon lat v t7 ip b13 ty len                    (* :96-101 *)
-  else if t =? 7 then mkMd c p pre di ni lon lat t6 v ip b13 ty len                    (* :102-107 *)
-  else if t =? 11 then mkMd c p pre di ni lon lat t6 t7 (pip v) b13 ty len             (* :108-113 *)
-  else if t =? 13 then mkMd c p pre di ni lon lat t6 t7 ip (pb v) ty len               (* :114-119 *)
-  else l.                                                                              (* :123-128 unknown: skipped *)
+  if t =? 2 then mkMd (c ++ tlv) p pre v ni lon lat t6 t7 ip b13 ty len                (* :77-83 appends the item to Contents *)
+  else if t =? 3 then mkMd c p pre di v lon lat t6 t7 ip b13 ty len                    (* :84-89 *)
+  else if t =? 4 then mkMd c p pre di ni (pf v) lat t6 t7 ip b13 ty len                (* :90-95 *)
+  else if t =? 5 then mkMd c p pre di ni lon (pf v) t6 t7 ip b13 ty len                (* :96-101 *)
+  else if t =? 6 then mkMd c p pre di ni lon lat v t7 ip b13 ty len                    (* :102-107 *)
+  else if t =? 7 then mkMd c p pre di ni lon lat t6 v ip b13 ty len                    (* :108-113 *)
+  else if t =? 11 then mkMd c p pre di ni lon lat t6 t7 (pip v) b13 ty len             (* :114-119 *)
+  else if t =? 13 then mkMd c p pre di ni lon lat t6 t7 ip (pb v) ty len               (* :120-125 *)
+  else l.                                                                              (* :129-134 unknown: skipped *)
 
-(* the loop :58-137; Err 99 = out of fuel *)
+(* the loop :64-136; Err 99 = out of fuel *)
 Fixpoint md_loop (fuel : nat) (data : list Z) (off : Z) (l : mdp) : mdp * outcome unit * bool :=
   let n := zlen data in
-  if n <=? off then (l, Ok tt, false) else                                            (* :59-61 *)
+  if n <=? off then (l, Ok tt, false) else                                            (* :65-67 *)
   match fuel with
   | O => (l, Err 99, false)
   | S f =>
-    ml_bind (cd_idx data off) l false (fun t =>                                       (* :62 *)
-    if t =? 255 then (l, Ok tt, false) else                                           (* :120-122 offset = Length: the loop ends *)
-    if n <? off + 2 then (l, Err 2, true) else                                        (* :63-69 *)
+    ml_bind (cd_idx data off) l false (fun t =>                                       (* :68 *)
+    if t =? 255 then (l, Ok tt, false) else                                           (* :126-128 offset = Length: the loop ends *)
+    if n <? off + 2 then (l, Err 2, true) else                                        (* :69-75 *)
     ml_bind (cd_idx data (off + 1)) l false (fun len =>
     if n <? off + 2 + len then (l, Err 2, true) else
     ml_bind (cd_slc data off (off + 2 + len)) l false (fun tlv =>
@@ -53,11 +53,11 @@ Fixpoint md_loop (fuel : nat) (data : list Z) (off : Z) (l : mdp) : mdp * outcom
 
 Definition md_decode_gen (orig : bool) (old : mdp) (data : list Z) : mdp * outcome unit * bool :=
   let n := zlen data in
-  if n <? 28 then (old, Err 1, true) else                                             (* :50-53 *)
-  let base := if orig then old else md_fresh in                                       (* :54 repaired *)
-  ml_bind (cd_slc data 0 28) old false (fun pre =>                                    (* :57 *)
+  if n <? 28 then (old, Err 1, true) else                                             (* :54-57 *)
+  let base := if orig then old else md_fresh in                                       (* :60 repaired *)
+  ml_bind (cd_slc data 0 28) old false (fun pre =>                                    (* :62 *)
   let l0 := mkMd (md_contents base) (md_payload base) pre (md_devinfo base) (md_netinfo base) (md_lon base) (md_lat base)
-                 (md_t6 base) (md_t7 base) (md_ip base) (md_b13 base) 1810 n in       (* :54-57  0x0712 *)
+                 (md_t6 base) (md_t7 base) (md_ip base) (md_b13 base) 1810 n in       (* :60-62  0x0712 *)
   let '(l1, o, tr) := md_loop (S (length data)) data 28 l0 in
   match o with
   | Ok _ => (mkMd data [] (md_preamble l1) (md_devinfo l1) (md_netinfo l1) (md_lon l1) (md_lat l1) (md_t6 l1) (md_t7 l1)
@@ -78,7 +78,7 @@ Definition md_decode_fn (data : list Z) : mdp * bool * option Z * outcome unit *
   end.
 End Parsers.
 
-Definition md_next (l : mdp) : Z := md_type l.                                        (* :159-161 *)
+Definition md_next (l : mdp) : Z := md_type l.                                        (* :158-160 *)
 
 (* SerializeTo :145-151 returns nil without touching the buffer *)
 Definition md_serialize (l : mdp) (payload : list Z) (fixl csum : bool) (junk : list Z) : outcome (list Z) * mdp := (Ok payload, l).
